@@ -13,6 +13,7 @@ import sys
 
 from .values import *  # noqa
 from . import values as V
+from .mdd import TRUE as MDD_TRUE, FALSE as MDD_FALSE
 
 NULL = type("NULLType", (), {"__repr__": lambda s: "NULL", "__deepcopy__": lambda s, m: s})()
 JUMPED = object()
@@ -228,8 +229,7 @@ class World:
     def __init__(self):
         self.frames = []
         self.g = None          # z3 guard (relational part + everything up to the last merge)
-        self.dom = {}          # CharVar -> frozenset (narrowed domains)
-        self.dom_base = {}     # domains already implied by self.g
+        self.dd = MDD_TRUE     # exact unary part of the guard as an MDD (see mdd.py)
         self.decided = {}      # cond key -> bool (facts implied by the guard)
         self.done = False
         self.result = None
@@ -263,10 +263,10 @@ class Interp:
             return False
         if isinstance(v, SBool):
             if v.var is not None:
-                cur = W.dom.get(v.var, v.var.full)
-                if cur <= v.allowed:
+                mdd = self.eng.mdd
+                if mdd.restrict(W.dd, v.var, v.cmask) is MDD_FALSE:
                     return True
-                if not (cur & v.allowed):
+                if mdd.restrict(W.dd, v.var, v.mask) is MDD_FALSE:
                     return False
                 raise NeedDecision(v)
             k = v.key()
@@ -294,7 +294,7 @@ class Interp:
     def concretize_char(self, W, c):
         if isinstance(c, str):
             return c
-        cur = W.dom.get(c.var, c.var.full)
+        cur = self.eng.mdd.values(W.dd, c.var)
         vals = list(dict.fromkeys(c.value_of(b) for b in c.var.alpha if b in cur))
         for a in vals[:-1]:
             if self.truth(W, c.eq(a)):
